@@ -45,6 +45,9 @@ type Ctx struct {
 	Work  string // scratch dir (removed at exit)
 	Build string // where binaries for this property live
 	Start time.Time
+	// ReproRounds is how often a rejected case is re-executed before it counts as not reproduced (default 5);
+	// checks whose failures depend on the goroutine schedule raise it
+	ReproRounds int
 
 	mu         sync.Mutex
 	Ev         Evidence
@@ -679,7 +682,11 @@ func (c *Ctx) JudgeAndReport(spec, cfg string, cases []map[string]any, shards in
 		pending = pending[:maxRepro]
 	}
 	confirmed := map[int]map[string]any{}
-	for round := 0; round < 5 && len(pending) > 0; round++ {
+	rounds := 5
+	if c.ReproRounds > 0 {
+		rounds = c.ReproRounds
+	}
+	for round := 0; round < rounds && len(pending) > 0; round++ {
 		var olds []map[string]any
 		for _, id := range pending {
 			old := byID[id]
@@ -719,7 +726,7 @@ func (c *Ctx) JudgeAndReport(spec, cfg string, cases []map[string]any, shards in
 		}
 	}
 	for _, id := range pending {
-		c.Infra("case %d rejected once but accepted on 5 re-executions (not reproduced)", id)
+		c.Infra("case %d rejected once but accepted on %d re-executions (not reproduced)", id, rounds)
 	}
 	seenSig := map[string]int{}
 	var ids []int
